@@ -1003,7 +1003,11 @@ func readTcbInfoTcbStatus(tcbInfo pcs.TcbInfo, tdQuoteBody *pb.TDQuoteBody, pckC
 			return pcs.TcbLevel{}, err
 		}
 		logger.V(2).Info("Tdx Module TCB Status found: ", matchingTdxModuleTcbLevel.TcbStatus)
-		return *matchingTdxModuleTcbLevel, nil
+		// The TDX module's TCB level decides the status only if it is not
+		// UpToDate; otherwise the status is the one of the platform's TCB level.
+		if matchingTdxModuleTcbLevel.TcbStatus != pcs.TcbComponentStatusUpToDate {
+			return *matchingTdxModuleTcbLevel, nil
+		}
 	}
 
 	logger.V(2).Info("TCB Status found: ", matchingTcbLevel.TcbStatus)
